@@ -1,5 +1,6 @@
 import PQ.Model.Introspect
 import PQ.Lemmas.Thrift
+import PQ.Lemmas.IntrospectRT
 /-!
 # C16 — introspection calls report exactly what is in the file
 
@@ -13,6 +14,19 @@ mirrors:
   on the pages — carried out for the two-page case `at_two`);
 * `meta_is_footer`: `readMetaData` returns the decoding of exactly the bytes designated by the
   trailing length field.
+
+On the files the writer produces (`fileBytes (runWriter cols max k (body ++ [Op.close]))`, helper
+lemmas in `Lemmas/IntrospectRT.lean`):
+
+* `readMetaData_runWriter` / `readMetaData_eq_parseFile`: `ReadMetaData` returns exactly the footer the
+  independent parser `parseFile` decodes;
+* `pageHeadersAt_chunk`, `pageHeadersAt_chunk_cover`, `pageHeadersAt_chunk_zero`: `PageHeadersAtOffset`
+  at the first page of a column chunk returns one header per page, in order — all of them for the
+  chunk's `num_values`, the shortest non-empty covering prefix for a smaller `n`, one for `n ≤ 0`;
+  `pageHeadersAt_runWriter`: this applies to every chunk the footer of a written file lists;
+* `pageHeaders_runWriter`: `PageHeaders` returns the header of every page of every chunk of every row
+  group, in file order; `introspection_runWriter`: … which are, one for one, the pages the
+  independent walk of the file finds, with the same `num_values`, sizes and statistics.
 -/
 namespace PQ.C16
 
@@ -41,5 +55,252 @@ theorem meta_is_footer (file : Bytes) (h8 : 8 ≤ file.length) (hm : file.drop (
   unfold readMetaData
   rw [if_neg (by omega), if_neg (by simp [hm]), if_neg (by omega)]
   simp only [hs, hf]
+
+/-! ## The introspection calls on the files the writer produces
+
+`F := fileBytes (runWriter cols max k (body ++ [Op.close]))` is the file of a `Close`d history of
+`Add`s and `Write`s; `histPrgs cols max body` lists, per row group, per column, the entries of every
+page (see `Lemmas/FileRT.lean`); `phOf k c es` is the decoded header of the page `pageBytes k c es`. -/
+
+/-- **1. `ReadMetaData` returns the footer.**  For the file of every `Close`d history the call
+returns exactly the `FileMetaData` that the independent parser decodes
+(`parseFile_runWriter_explicit`): version 1, the struct's schema, the number of written records, and
+per row group the truthful chunk metadata `fileMetas`. -/
+theorem readMetaData_runWriter (k : Codec) (cols : List Col) (max : Nat) (body : List Op)
+    (hmax : 1 ≤ max) (hcols : cols ≠ []) (hbody : ∀ op ∈ body, op.isClose = false)
+    (hsize : (fileBytes (runWriter cols max k (body ++ [Op.close]))).length < 2 ^ 32)
+    (se : List SElem) (sd : List SElemD) (hschema : schemaElems cols = some se)
+    (hdec : (se.map SElem.toT).mapM decSElem = some sd) :
+    readMetaData (fileBytes (runWriter cols max k (body ++ [Op.close]))) =
+      .ok { version := 1, schema := sd, numRows := (((batches body).map List.length).sum : Nat),
+            rowGroups := fileMetas k (histPrgs cols max body) 4 } := by
+  obtain ⟨rgs, hfile, hrwf, hrdec⟩ := runWriter_introspect_layout k cols max body hmax hcols hbody se hschema
+  have hn : (footerOf se ((batches body).map List.length).sum rgs).enc.length < 2 ^ 32 := by
+    rw [hfile] at hsize
+    simp only [List.length_append] at hsize
+    omega
+  exact readMetaData_layout se (schemaElems_ne_nil cols se hschema) _ rgs hrwf sd _ hdec hrdec _ _ hfile hn
+
+/-- … in the words of the property: whatever the independent parser accepts the file with, its footer
+is what `ReadMetaData` returns -/
+theorem readMetaData_eq_parseFile (dc : Decomp) (k : Codec) (cols : List Col) (max : Nat) (body : List Op)
+    (hmax : 1 ≤ max) (hcols : cols ≠ []) (hbody : ∀ op ∈ body, op.isClose = false)
+    (hok : ∀ b ∈ batches body, BatchOK dc k cols max b)
+    (hsize : (fileBytes (runWriter cols max k (body ++ [Op.close]))).length < 2 ^ 32)
+    (se : List SElem) (sd : List SElemD) (hschema : schemaElems cols = some se)
+    (hdec : (se.map SElem.toT).mapM decSElem = some sd)
+    (hleaves : schemaLeaves sd = .ok (cols.map expectedLeaf)) :
+    ∃ f, parseFile dc cols max (fileBytes (runWriter cols max k (body ++ [Op.close]))) = .ok f ∧
+      readMetaData (fileBytes (runWriter cols max k (body ++ [Op.close]))) = .ok f.fmd :=
+  ⟨_, parseFile_runWriter_explicit dc k cols max body hmax hcols hbody hok hsize se sd hschema hdec hleaves,
+    readMetaData_runWriter k cols max body hmax hcols hbody hsize se sd hschema hdec⟩
+
+/-- **2. `PageHeadersAtOffset` on one column chunk.**  The pages `ess` of a column chunk sit at offset
+`o` of a file; asked for the chunk's `num_values` (`n = Σ |es|`), the call returns exactly one header
+per page of the chunk, in order, each the decoded header of its page (`num_values`, compressed and
+uncompressed size, encodings, statistics).  No page is empty (written pages hold at least one
+record) and the chunk has at least one page. -/
+theorem pageHeadersAt_chunk (k : Codec) (c : Col) (ess : List PageEntries) (file pre post : Bytes) (o n : Int)
+    (hfile : file = pre ++ chunkBytes k c ess ++ post) (ho : o = (pre.length : Nat))
+    (hn : n = (((ess.map List.length).sum : Nat) : Int)) (hne : ess ≠ []) (hpages : ∀ es ∈ ess, es ≠ []) :
+    pageHeadersAt file o n = .ok (ess.map (phOf k c)) := by
+  subst hfile ho
+  rw [pageHeadersAt_cover k c ess pre post n hne (by omega), coverPrefix_all n ess 0 _ hpages (by omega)]
+
+/-- **2, covering form.**  Asked for any `n` up to the chunk's `num_values`, the call returns the
+headers of the shortest non-empty prefix of the chunk's pages whose `num_values` reach `n`: the first
+`j` pages, where the first `j` pages hold at least `n` values and no shorter non-empty prefix does.
+(Pages may be empty here.) -/
+theorem pageHeadersAt_chunk_cover (k : Codec) (c : Col) (ess : List PageEntries) (file pre post : Bytes) (o n : Int)
+    (hfile : file = pre ++ chunkBytes k c ess ++ post) (ho : o = (pre.length : Nat))
+    (j : Nat) (h1 : 1 ≤ j) (hj : j ≤ ess.length)
+    (hreach : n ≤ ((((ess.take j).map List.length).sum : Nat) : Int))
+    (hmin : ∀ i, 1 ≤ i → i < j → ((((ess.take i).map List.length).sum : Nat) : Int) < n) :
+    pageHeadersAt file o n = .ok ((ess.take j).map (phOf k c)) := by
+  subst hfile ho
+  have hne : ess ≠ [] := by
+    intro h; subst h; simp at hj; omega
+  have hle : (((ess.take j).map List.length).sum : Nat) ≤ ((ess.map List.length).sum : Nat) := by
+    conv => rhs; rw [← List.take_append_drop j ess]
+    simp only [List.map_append, List.sum_append]
+    omega
+  rw [pageHeadersAt_cover k c ess pre post n hne (by omega), coverPrefix_eq_take n ess j h1 hj hreach hmin]
+
+/-- with `n = 0` (or negative): exactly one header, the one at the offset -/
+theorem pageHeadersAt_chunk_zero (k : Codec) (c : Col) (es : PageEntries) (ess : List PageEntries) (file pre post : Bytes)
+    (o n : Int) (hfile : file = pre ++ chunkBytes k c (es :: ess) ++ post) (ho : o = (pre.length : Nat)) (hn : n ≤ 0) :
+    pageHeadersAt file o n = .ok [phOf k c es] :=
+  pageHeadersAt_chunk_cover k c (es :: ess) file pre post o n hfile ho 1 (by omega) (by simp) (by simp; omega)
+    (fun i h1 h2 => by omega)
+
+/-- **3. `PageHeaders` lists every data page of the file.**  For the file of every `Close`d history
+whose batches are `BatchOK`, and the footer `ReadMetaData` returns for it, the call returns
+`fileHdrs`: the header of every page of every column chunk of every row group, in file order. -/
+theorem pageHeaders_runWriter (dc : Decomp) (k : Codec) (cols : List Col) (max : Nat) (body : List Op)
+    (hmax : 1 ≤ max) (hcols : cols ≠ []) (hbody : ∀ op ∈ body, op.isClose = false)
+    (hok : ∀ b ∈ batches body, BatchOK dc k cols max b)
+    (se : List SElem) (hschema : schemaElems cols = some se) (v N : Int) (sd : List SElemD) :
+    pageHeaders (fileBytes (runWriter cols max k (body ++ [Op.close])))
+        { version := v, schema := sd, numRows := N, rowGroups := fileMetas k (histPrgs cols max body) 4 } =
+      .ok (fileHdrs k (histPrgs cols max body)) := by
+  obtain ⟨rgs, hfile, _, _⟩ := runWriter_introspect_layout k cols max body hmax hcols hbody se hschema
+  have h := phStep_prgs k (histPrgs cols max body) par1
+    ((footerOf se ((batches body).map List.length).sum rgs).enc ++
+      le32 (footerOf se ((batches body).map List.length).sum rgs).enc.length ++ par1) []
+    (histPrgs_pagesNE dc k cols hmax body hok)
+  rw [← hfile] at h
+  rw [pageHeaders_eq]
+  exact h
+
+/-- what a header says of its page: `num_values`, compressed size, uncompressed size, statistics -/
+def hdrFacts (h : PHdr) : Option Int × Int × Int × Option (List (Nat × Thrift.TVal)) :=
+  (h.dph.map (·.1), h.compressed, h.uncompressed, h.dph.bind (·.2.2.2.2))
+
+/-- … and what the independent walk of the file found of a page -/
+def pageFacts (p : SpecPage) : Option Int × Int × Int × Option (List (Nat × Thrift.TVal)) :=
+  (some (p.numValues : Int), (p.compressedLen : Int), (p.uncompressedLen : Int), p.stats)
+
+theorem fileHdrs_facts (k : Codec) (prgs : List (Nat × List PItem)) :
+    (fileHdrs k prgs).map hdrFacts = (((prgs.map (rgSpec k)).flatMap (·.chunks)).flatMap (·.pages)).map pageFacts := by
+  have h0 : ∀ (c : Col) (ess : List PageEntries),
+      (ess.map (phOf k c)).map hdrFacts = (ess.map (pageSpec k c)).map pageFacts := by
+    intro c ess
+    rw [List.map_map, List.map_map]
+    apply List.map_congr_left
+    intro es _
+    rfl
+  have h1 : ∀ pits : List PItem,
+      (rgHdrs k pits).map hdrFacts = ((pits.map fun p => chunkSpec k p.1 p.2).flatMap (·.pages)).map pageFacts := by
+    intro pits
+    induction pits with
+    | nil => rfl
+    | cons p pits ih =>
+      simp only [rgHdrs, List.flatMap_cons, List.map_append, List.map_cons] at ih ⊢
+      rw [ih]
+      simp only [chunkHdrs, chunkSpec, h0]
+  induction prgs with
+  | nil => rfl
+  | cons g prgs ih =>
+    simp only [fileHdrs, List.flatMap_cons, List.map_append, List.map_cons, List.flatMap_append] at ih ⊢
+    rw [ih, h1]
+    rfl
+
+/-- **C16, whole.**  For the file of every `Close`d history (hypotheses of `parseFile_runWriter`): the
+independent parser accepts the file with some result `f`; `ReadMetaData` returns exactly `f`'s
+footer; and `PageHeaders` on that footer returns exactly one header per data page the independent
+walk found, in file order (row group by row group, chunk by chunk, page by page), each with the
+`num_values`, compressed size, uncompressed size and statistics the walk found for that page. -/
+theorem introspection_runWriter (dc : Decomp) (k : Codec) (cols : List Col) (max : Nat) (body : List Op)
+    (hmax : 1 ≤ max) (hcols : cols ≠ []) (hbody : ∀ op ∈ body, op.isClose = false)
+    (hok : ∀ b ∈ batches body, BatchOK dc k cols max b)
+    (hsize : (fileBytes (runWriter cols max k (body ++ [Op.close]))).length < 2 ^ 32)
+    (se : List SElem) (sd : List SElemD) (hschema : schemaElems cols = some se)
+    (hdec : (se.map SElem.toT).mapM decSElem = some sd)
+    (hleaves : schemaLeaves sd = .ok (cols.map expectedLeaf)) :
+    ∃ f hs, parseFile dc cols max (fileBytes (runWriter cols max k (body ++ [Op.close]))) = .ok f ∧
+      readMetaData (fileBytes (runWriter cols max k (body ++ [Op.close]))) = .ok f.fmd ∧
+      pageHeaders (fileBytes (runWriter cols max k (body ++ [Op.close]))) f.fmd = .ok hs ∧
+      hs.map hdrFacts = ((f.rowGroups.flatMap (·.chunks)).flatMap (·.pages)).map pageFacts :=
+  ⟨_, _, parseFile_runWriter_explicit dc k cols max body hmax hcols hbody hok hsize se sd hschema hdec hleaves,
+    readMetaData_runWriter k cols max body hmax hcols hbody hsize se sd hschema hdec,
+    pageHeaders_runWriter dc k cols max body hmax hcols hbody hok se hschema _ _ _,
+    fileHdrs_facts k _⟩
+
+/-- **2 on the writer's files: listing from the offsets the footer gives.**  Every column chunk the
+footer of a written file lists is the chunk of some column `p.1` with pages `p.2` of some row group,
+and `PageHeadersAtOffset` at the chunk's `data_page_offset` with the chunk's `num_values` returns
+exactly the headers of these pages, in order. -/
+theorem pageHeadersAt_runWriter (dc : Decomp) (k : Codec) (cols : List Col) (max : Nat) (body : List Op)
+    (hmax : 1 ≤ max) (hcols : cols ≠ []) (hbody : ∀ op ∈ body, op.isClose = false)
+    (hok : ∀ b ∈ batches body, BatchOK dc k cols max b)
+    (se : List SElem) (hschema : schemaElems cols = some se) (ch : ChunkMeta)
+    (hch : ch ∈ (fileMetas k (histPrgs cols max body) 4).flatMap (·.columns)) :
+    ∃ g ∈ histPrgs cols max body, ∃ p ∈ g.2, ∃ m, ch.md = some m ∧
+      m.numValues = (((p.2.map List.length).sum : Nat) : Int) ∧
+      pageHeadersAt (fileBytes (runWriter cols max k (body ++ [Op.close]))) m.dataPageOffset m.numValues =
+        .ok (p.2.map (phOf k p.1)) := by
+  obtain ⟨rgs, hfile, _, _⟩ := runWriter_introspect_layout k cols max body hmax hcols hbody se hschema
+  obtain ⟨g, hg, p, hp, pre', post', hf, hc⟩ := fileMetas_located k (histPrgs cols max body) par1 _ ch hch
+  rw [← hfile] at hf
+  have hne := histPrgs_pagesNE dc k cols hmax body hok g hg p hp
+  subst hc
+  refine ⟨g, hg, p, hp, _, rfl, ?_, ?_⟩
+  · simp only [colChunk_numValues]
+  · exact pageHeadersAt_chunk k p.1 p.2 _ pre' post' _ _ hf rfl (by simp only [colChunk_numValues]) hne.1 hne.2
+
+/-! ## Non-vacuity: two columns, `max = 2`, history add, add, add, write, write, add, add, write, add, close -/
+section NonVacuity
+
+private def nvCols : List Col :=
+  [{ path := ["a"], reps := [.req], ty := .i32 }, { path := ["b"], reps := [.rpt], ty := .i32 }]
+private def nvCodec : Codec := { id := 0, compress := id }
+private def nvDc : Decomp := { snappy := fun _ => none, gzip := fun _ => none }
+/-- record `k`: `a = k`, `b = [k, k + 256]` for even `k` and `[]` for odd `k` -/
+private def nvRec (k : Nat) : Rec :=
+  [[{ rep := 0, dl := 0, val := some [k, 0, 0, 0] }],
+   if k % 2 = 0 then [{ rep := 0, dl := 1, val := some [k, 0, 0, 0] }, { rep := 1, dl := 1, val := some [k, 1, 0, 0] }]
+   else [{ rep := 0, dl := 0, val := none }]]
+private def nvBody : List Op :=
+  [.add (nvRec 1), .add (nvRec 2), .add (nvRec 3), .write, .write, .add (nvRec 4), .add (nvRec 5), .write, .add (nvRec 6)]
+private def nvSe : List SElem :=
+  [{ name := "root", numChildren := some 2 }, { name := "a", ty := some 1, rep := some 0 },
+   { name := "b", ty := some 1, rep := some 2 }]
+private def nvSd : List SElemD :=
+  [([(5, 2)], strBytes "root"), ([(1, 1), (3, 0)], strBytes "a"), ([(1, 1), (3, 2)], strBytes "b")]
+
+private theorem nv_batches : batches nvBody = [[nvRec 1, nvRec 2, nvRec 3], [nvRec 4, nvRec 5]] := by decide
+
+private theorem nv_ok : ∀ b ∈ batches nvBody, BatchOK nvDc nvCodec nvCols 2 b := by
+  rw [nv_batches]
+  intro b hb
+  have hx' : ∀ x ∈ nvCols.zipIdx, x = (⟨["a"], [.req], .i32⟩, 0) ∨ x = (⟨["b"], [.rpt], .i32⟩, 1) := by
+    intro x hx; simpa [nvCols] using hx
+  have hb' : b = [nvRec 1, nvRec 2, nvRec 3] ∨ b = [nvRec 4, nvRec 5] := by simpa using hb
+  rcases hb' with rfl | rfl
+  · apply batchOK_of_records nvDc nvCodec nvCols (by decide)
+    · decide
+    · intro r hr x hx
+      have hr' : r = nvRec 1 ∨ r = nvRec 2 ∨ r = nvRec 3 := by simpa using hr
+      rcases hx' x hx with rfl | rfl <;> rcases hr' with rfl | rfl | rfl <;>
+        exact ⟨⟨_, _, rfl, rfl, by simp⟩, by decide, by decide⟩
+    · decide
+    · intro x hx
+      rcases hx' x hx with rfl | rfl <;> decide
+    · intro raw; exact Or.inl ⟨rfl, rfl⟩
+  · apply batchOK_of_records nvDc nvCodec nvCols (by decide)
+    · decide
+    · intro r hr x hx
+      have hr' : r = nvRec 4 ∨ r = nvRec 5 := by simpa using hr
+      rcases hx' x hx with rfl | rfl <;> rcases hr' with rfl | rfl <;>
+        exact ⟨⟨_, _, rfl, rfl, by simp⟩, by decide, by decide⟩
+    · decide
+    · intro x hx
+      rcases hx' x hx with rfl | rfl <;> decide
+    · intro raw; exact Or.inl ⟨rfl, rfl⟩
+
+/-- the theorems applied: two row groups (pages of 2 + 1 and of 2 records) of two columns; the footer
+is returned, and `PageHeaders` lists the six data pages in file order — column `a`'s pages of 2 and
+1 values, column `b`'s of 3 and 1, then `a`'s page of 2 and `b`'s of 3 -/
+example : ∃ fmd hs, readMetaData (fileBytes (runWriter nvCols 2 nvCodec (nvBody ++ [Op.close]))) = .ok fmd ∧
+    fmd.numRows = 5 ∧ fmd.rowGroups.map (·.numRows) = [3, 2] ∧
+    pageHeaders (fileBytes (runWriter nvCols 2 nvCodec (nvBody ++ [Op.close]))) fmd = .ok hs ∧
+    hs.map (fun h => h.dph.map (·.1)) = [some 2, some 1, some 3, some 1, some 2, some 3] := by
+  refine ⟨_, _, readMetaData_runWriter nvCodec nvCols 2 nvBody (by decide) (by decide) (by decide) (by decide +kernel)
+      nvSe nvSd (by decide +kernel) (by decide +kernel), ?_, ?_,
+    pageHeaders_runWriter nvDc nvCodec nvCols 2 nvBody (by decide) (by decide) (by decide) nv_ok nvSe
+      (by decide +kernel) _ _ _, ?_⟩
+  · rw [nv_batches]; rfl
+  · decide +kernel
+  · decide +kernel
+
+/-- the hypotheses of the whole-property statement hold for this history as well -/
+example : ∃ f hs, parseFile nvDc nvCols 2 (fileBytes (runWriter nvCols 2 nvCodec (nvBody ++ [Op.close]))) = .ok f ∧
+    readMetaData (fileBytes (runWriter nvCols 2 nvCodec (nvBody ++ [Op.close]))) = .ok f.fmd ∧
+    pageHeaders (fileBytes (runWriter nvCols 2 nvCodec (nvBody ++ [Op.close]))) f.fmd = .ok hs ∧
+    hs.map hdrFacts = ((f.rowGroups.flatMap (·.chunks)).flatMap (·.pages)).map pageFacts :=
+  introspection_runWriter nvDc nvCodec nvCols 2 nvBody (by decide) (by decide) (by decide) nv_ok (by decide +kernel)
+    nvSe nvSd (by decide +kernel) (by decide +kernel) (by rfl)
+
+end NonVacuity
 
 end PQ.C16
